@@ -33,6 +33,7 @@ def observe(spec, inp):
             arr = pnd.variable_ndarray(numpy.zeros((1, n), dtype=numpy.int64), variables=vs)
             out["bi"] = [int(x) for x in arr.boolean_variable_indices]
             out["ii"] = [int(x) for x in arr.integer_variable_indices]
+            out["alt"] = [[int(x) for x in arr.variable_indices(a)] for a in (puan.Dtype.BOOL, "bool", puan.Dtype.INT, "int")]
         elif part == "to_list":
             vs = [puan.variable(i) for i in ids]
             if spec["nd"] == 1:
@@ -92,6 +93,8 @@ def judge(spec, inp, out, ob):
         ei = [j for j in range(n) if j not in eb]
         if out["bi"] != eb or out["ii"] != ei:
             bad.append("boolean/integer indices %s/%s expected %s/%s" % (out["bi"], out["ii"], eb, ei))
+        if out["alt"] != [eb, eb, ei, ei]:
+            bad.append("variable_indices(Dtype.BOOL / 'bool' / Dtype.INT / 'int') = %s expected %s" % (out["alt"], [eb, eb, ei, ei]))
     elif part == "to_list":
         rows = [[inp["e%d" % j] for j in range(n)]] if spec["nd"] == 1 else [[inp["e%d_%d" % (i, j)] for j in range(n)] for i in range(2)]
         for row, got in zip(rows, out["res"]):
